@@ -430,23 +430,50 @@ class Engine:
         return False
 
     def ctor_assigns(self, clsname, name):
-        """Does some __init__ / __post_init__ along the MRO of `clsname` assign self.<name>?"""
+        """Does the constructor chain of `clsname` assign self.<name>?  The chain: the first __init__ along the MRO, then the
+        __init__s it reaches through super().__init__(...) / Base.__init__(self, ...); plus the first __post_init__."""
         key = (clsname, name)
         c_ = self._ctor_assigns_cache
-        if key not in c_:
-            hit = False
-            for cn in self.prog.mro(clsname):
-                c = self.prog.classes.get(cn)
-                for mn in ("__init__", "__post_init__"):
-                    m = c.methods.get(mn) if c is not None else None
-                    if m is None:
-                        continue
-                    for n in ast.walk(m.node):
-                        if isinstance(n, ast.Attribute) and isinstance(n.ctx, ast.Store) and n.attr == name and \
-                                isinstance(n.value, ast.Name) and n.value.id == "self":
-                            hit = True
-            c_[key] = hit
-        return c_[key]
+        if key in c_:
+            return c_[key]
+        mro = self.prog.mro(clsname)
+
+        def first_init(start):
+            for k in range(start, len(mro)):
+                c = self.prog.classes.get(mro[k])
+                if c is not None and "__init__" in c.methods:
+                    return k
+            return None
+        todo, seen, hit = [first_init(0)], set(), False
+        nodes = []
+        while todo:
+            k = todo.pop()
+            if k is None or k in seen:
+                continue
+            seen.add(k)
+            m = self.prog.classes[mro[k]].methods["__init__"]
+            nodes.append(m.node)
+            for n in ast.walk(m.node):
+                if isinstance(n, ast.Call) and isinstance(n.func, ast.Attribute) and n.func.attr == "__init__":
+                    tgt = ast.unparse(n.func.value)
+                    if tgt.startswith("super("):
+                        todo.append(first_init(k + 1))
+                    elif tgt.split(".")[-1] in mro:
+                        kk = mro.index(tgt.split(".")[-1])
+                        if "__init__" in self.prog.classes[mro[kk]].methods:
+                            todo.append(kk)
+        for cn in mro:
+            c = self.prog.classes.get(cn)
+            if c is not None and "__post_init__" in c.methods:
+                nodes.append(c.methods["__post_init__"].node)
+                break
+        for nd in nodes:
+            for n in ast.walk(nd):
+                if isinstance(n, ast.Attribute) and isinstance(n.ctx, ast.Store) and n.attr == name and \
+                        isinstance(n.value, ast.Name) and n.value.id == "self":
+                    hit = True
+        c_[key] = hit
+        return hit
 
     def frame_static_checks(self, fi):
         """Frame conditions that hold of every function of the repository on the pinned tree and on which every
